@@ -120,7 +120,7 @@ PROPS = {
     },
     "C17": {
         "level": "exploration",
-        "level_text": "members are simulator tasks, so the completion order is the schedule; seeded exploration over strategies x member counts x outcomes x completion orders x cancellation-aware/waiting members, with the finite space (strategy x n<=4 x outcomes x orders) measured and, in the thorough tier, required to be covered completely; contract, cancellation, panic and goroutine-leak oracles",
+        "level_text": "members are simulator tasks, so the completion order is the schedule; seeded exploration over strategies x member counts x outcomes x completion orders x cancellation-aware/waiting members, with the finite space (strategy x n<=4 x outcomes x orders) measured and, in the thorough tier, required to be covered completely; large groups (60-120 members, all but the deciding one long-lived); contract, cancellation, panic and goroutine-leak oracles",
         "level_note": TRUST + "; cancellation is read no more strongly than the code documents it (a decided success of All/Most/Any must not cancel anybody; One derives no context)",
         "technique": "deterministic simulation (member completion order = seeded schedule) + strategy-contract oracle on (outcome vector, order) + synctest leak/panic monitor; measured coverage of the finite case space",
         "rule": ("runs are generated from the decision tape (strategy, direct or via Execute, n, outcomes, member kinds, release order of members); non-trivial = at least two members; "
@@ -209,7 +209,7 @@ PROPS = {
     },
     "C02": {
         "level": "exploration",
-        "level_text": "seeded exploration of 2-4 writers interleaved at every hooked window of the optimistic read / change / lock / save / publish sequence; every history checked for linearizability against the reference model; trait-level read-modify-write (count deltas, enter/leave totals) and a trait whose writes continue in a goroutine of their own (brightness fades as scheduled tasks, clients calling while a fade ticks: an acknowledged later write is never overwritten) and a model that deletes on its own (the hail keep-alive collector against concurrent refreshes); on every discovered server: concurrent relative updates (delta / relative flags, small and large steps) come to what a second instance of the server makes of the same updates from one caller, and after generated concurrent Updates the state is the response of one of the successful ones; a model that keeps a log beside its resource (waste records) holds exactly the adds that reported success; operations that span a model's two resources (electric: find the normal mode, make it active) are one step for every concurrent caller; evidence over sampled schedules",
+        "level_text": "seeded exploration of 2-4 writers interleaved at every hooked window of the optimistic read / change / lock / save / publish sequence; every history checked for linearizability against the reference model; trait-level read-modify-write (count deltas, enter/leave totals) and a trait whose writes continue in a goroutine of their own (brightness fades as scheduled tasks, clients calling while a fade ticks: an acknowledged later write is never overwritten) and a model that deletes on its own (the hail keep-alive collector against concurrent refreshes); on every discovered server: concurrent relative updates (delta / relative flags, small and large steps) come to what a second instance of the server makes of the same updates from one caller, and after generated concurrent Updates the state is the response of one of the successful ones; a model that keeps a log beside its resource (waste records) holds exactly the adds that reported success; operations that span a model's two resources (electric: find the normal mode, make it active) are one step for every concurrent caller; a model whose writes merge through an interceptor of its own (metadata) shows keys of refused calls nowhere; evidence over sampled schedules",
         "level_note": TRUST + "; porcupine v1.3.0 as linearizability checker; the reference model of DESIGN.md appendix A (validated against the implementation by C01)",
         "technique": "deterministic simulation (seeded scheduler over simhook windows) + porcupine linearizability check against an executable reference model + conservation checks",
         "rule": RULE_SCHED,
